@@ -4,7 +4,11 @@ THEOREMS   lean/KyupyVerif/Props/C15.lean     model level: every shape / pattern
                                               axes, pack/unpack inverse laws, cdiv)
            lean/KyupyVerif/Props/C15Gen.lean  over tables regenerated from the code (render/parse, aliases,
                                               mv_str o mvarray, popcount, bit_in)
+           lean/KyupyVerif/Props/C15Sim.lean  data path: bytes of mv_to_bp = BitVec lanes of C01/C02/C06; pattern strings -> LogicSim
+                                              (m = 2, 4, 8, any P, cycle(k)) -> result strings
 CORR       Lean model (driver commands enc.*) vs the real functions on the same random inputs -> broken_tie
+           datapath_tie: real mvarray -> mv_to_bp -> LogicSim(sims=P, m) -> bp_to_mv -> mv_str vs driver command dp.run (every byte of
+           s[0], s[1] incl. padding lanes and planes >= mdim, and the text), hypotheses wfB / orderOKB per case -> broken_tie
 ORACLE     the property itself on the real functions against ground truth computed here with Python integers
            (documented alias table, (x >> i) & 1, bin(x).count('1')) -> violation + replay
 """
@@ -14,13 +18,15 @@ from . import common
 import dump_tables, dump_encode
 
 PID = 'C15'
-TARGETS = ['KyupyVerif.Props.C15', 'KyupyVerif.Props.C15Gen']
+TARGETS = ['KyupyVerif.Props.C15', 'KyupyVerif.Props.C15Gen', 'KyupyVerif.Props.C15Sim']
 RULE = ('oracle cases on the real functions: (a) render/parse of the eight values; (b) mvarray/mv_str/bparray on every '
         'string of length <= 2 over the documented alphabet+aliases and on random pattern lists (P x S, other characters '
         'mixed in, ints/bools/None); (c) mv_to_bp/bp_to_mv on random shapes 1-D..5-D incl. empty axes, P = 0..70, values '
         '0..255, C/transposed/strided layouts; (d) unpackbits/packbits for the eight integer dtypes, extremes included, '
         'bit counts below/at/above the width, 0-d..4-d; (e) popcount, cdiv. distinct = distinct (kind, shape/descriptor); '
-        'non-trivial = array with >= 2 different entries (or a string with >= 2 different values)')
+        'non-trivial = array with >= 2 different entries (or a string with >= 2 different values); (f) data path (correspondence only): '
+        'generated combinational and sequential circuits x m in {2,4,8} x {strip_forks} x {c_reuse} x k = 0..3 cycles x P = 1..23 random '
+        'pattern strings: bytes of s[0], s[1] and rendered text of the real LogicSim = model (dp.run)')
 
 # ---- specification constants (transcribed from the docstrings of logic.py:54-80; same as Props/C15Gen.lean)
 RENDER = '0X-1PRFN'
@@ -42,7 +48,8 @@ def doc_value(v):
 
 def theorems():
     return (common.theorems_of('KyupyVerif/Props/C15.lean', 'KV.C15'),
-            common.theorems_of('KyupyVerif/Props/C15Gen.lean', 'KV.C15'))
+            common.theorems_of('KyupyVerif/Props/C15Gen.lean', 'KV.C15'),
+            common.theorems_of('KyupyVerif/Props/C15Sim.lean', 'KV.C15'))
 
 
 # ---- encoding for the driver
@@ -525,14 +532,99 @@ def corr(ck, scale):
     return len(reqs)
 
 
+# =========================================================================================== data path (Props/C15Sim.lean)
+def _bytes(a):
+    return _l(np.asarray(a).reshape(-1).tolist())
+
+
+def make_dp_case(rng, c):
+    """one data-path case on circuit c: arity, strip_forks, c_reuse, k cycles (0 = s_to_c; c_prop; c_to_s), P pattern strings"""
+    import pickle, base64
+    S = len(c.s_nodes)
+    P = rng.choice([1, 1, 2, 3, 5, 7, 8, 9, 11, 13, 16, 17, 23])
+    pats = [rstr(rng, S, p_other=0.04) for _ in range(P)]
+    return {'circuit': base64.b64encode(pickle.dumps(c)).decode(), 'm': rng.choice([2, 4, 8, 8]), 'strip': rng.random() < 0.35,
+            'reuse': rng.random() < 0.5, 'k': rng.choice([0, 0, 0, 1, 2, 3]), 'pats': pats}
+
+
+def eval_dp_case(case):
+    """REAL mvarray -> mv_to_bp -> LogicSim(sims=P, m) -> bp_to_mv -> mv_str vs the model composition (driver `dp.run`): every byte of
+    s[0] and s[1] (all planes, padding lanes) and the rendered text. Returns (ok, observed, expected, hypotheses)."""
+    import pickle, base64
+    from kyupy import logic
+    from kyupy.logic_sim import LogicSim
+    from . import circ
+    c = pickle.loads(base64.b64decode(case['circuit']))
+    m, k, pats = case['m'], case['k'], case['pats']
+    P = len(pats)
+    try:
+        with common.quiet():
+            ls = LogicSim(c, sims=P, m=m, c_reuse=case['reuse'], strip_forks=case['strip'])
+            ls.s[0] = logic.mv_to_bp(logic.mvarray(*pats))
+            if k == 0:
+                ls.s_to_c(); ls.c_prop(); ls.c_to_s()
+            else:
+                ls.cycle(k)
+            mva = logic.bp_to_mv(ls.s[1])[..., :P]
+            try:
+                text = logic.mv_str(mva)
+            except AttributeError:          # finding D2 (mv_str under NumPy >= 2): render with the documented characters
+                text = '\n'.join(''.join(RENDER[v] for v in mva[:, p]) for p in range(P))
+        real = f"{_bytes(ls.s[0])};{_bytes(ls.s[1])};s{','.join(str(ord(ch)) for ch in text)}"
+    except ValueError:                      # shape of mv_to_bp(...) is not (S, 3, nbytes): NumPy cannot broadcast
+        real = 'err'
+    order = ','.join(str(n.index) for n in c.topological_order()) or '~'
+    dump = circ.dump_net(c)
+    ans, _, cert = common.run_driver([f"dp.run {m} {int(case['strip'])} {k} {order} {enc_strs(pats)} {dump}", f'net {dump}', f'netcert {order}'])
+    if ans != real:
+        ra, rr = ans.split(';'), real.split(';')
+        part = next((i for i, (x, y) in enumerate(zip(ra, rr)) if x != y), -1)
+        return False, {'part': ['s0', 's1', 'text'][part] if 0 <= part < 3 else 'shape', 'real': (rr[part] if part >= 0 else real)[:200]}, \
+            {'model': (ra[part] if part >= 0 else ans)[:200]}, cert
+    return True, None, None, cert
+
+
+def datapath_tie(ck, n_circuits):
+    from . import circ, c01
+    import collections
+    rng = ck.rng
+    stat = collections.Counter()
+    ck.extra['datapath_tie'] = stat
+    for it in range(n_circuits):
+        c = c01.seq_circuit(rng, n_gates=rng.randint(1, 20)) if rng.random() < 0.6 else circ.rand_circuit(rng, n_gates=rng.randint(1, 25))
+        d = circ.describe(c)
+        for rep in range(2):
+            case = make_dp_case(rng, c)
+            try:
+                ok, obs, exp, cert = eval_dp_case(case)
+            except Exception as ex:
+                ok, obs, exp, cert = False, {'raised': _err(ex)}, None, '?'
+            P = len(case['pats'])
+            ck.case(key=('dp', circ.dump_net(c), case['m'], case['strip'], case['k'], P), nontrivial=d['lines'] >= 3 and P >= 2,
+                    tag=['tie:datapath', f"dp-m:{case['m']}", f"dp-k:{case['k']}", f'dp-P%8:{P % 8}', f"dp-strip:{int(case['strip'])}",
+                         f"dp-ff:{min(d['ff'], 3)}", f'dp-hyp:{cert}'])
+            for t in ('cases', f"m={case['m']}", f"k={case['k']}", f'P%8={P % 8}', f"strip={int(case['strip'])}", f"ff={min(d['ff'], 3)}",
+                      f'hyp:{cert}', 'byte-exact' if ok else 'MISMATCH'): stat[t] += 1
+            if cert != 'wf=true order=true':
+                ck.broken_tie('data path: hypotheses Net.wfB / orderOKB on the real circuit and order', str(cert), inp={'dp_case': case})
+            if not ok:
+                ck.broken_tie('data path: real mvarray -> mv_to_bp -> LogicSim -> bp_to_mv -> mv_str vs model (Model/DataPath.lean, dp.run)',
+                              f'real {obs} != model {exp}'[:400], inp={'dp_case': case})
+
+
 def run(ck):
-    t1, t2 = theorems()
+    t1, t2, t3 = theorems()
     ck.prove([dump_tables.generate, dump_encode.generate], TARGETS[:1], t1)
-    ck.prove([], TARGETS[1:], t2)        # separate module: a defect in the tables must not hide the model-level theorems
+    ck.prove([], TARGETS[1:2], t2)       # separate module: a defect in the tables must not hide the model-level theorems
+    ck.prove([], TARGETS[2:], t3)        # data path (imports Props/C01, C02 and the generated dispatchers)
     try:
         corr(ck, ck.scale)
     except Exception as ex:
         ck.broken_tie('correspondence run', _err(ex))
+    try:
+        datapath_tie(ck, 40 * ck.scale)
+    except Exception as ex:
+        ck.broken_tie('data-path correspondence run', _err(ex))
     oracle(ck, ck.scale)
     if ck.broken and not ck.violations:
         oracle(ck, ck.scale * 8, exhaustive=False)
@@ -549,6 +641,10 @@ def replay(rep):
     if 'input' not in rep or not isinstance(rep.get('input'), dict):
         print(json.dumps({'ok': False, 'broken': rep.get('broken')}, default=str)[:2000])
         return 1
+    if 'dp_case' in rep['input']:
+        ok, obs, exp, cert = eval_dp_case(rep['input']['dp_case'])
+        print(json.dumps({'ok': ok, 'hypotheses': cert, 'observed': obs, 'expected': exp}, default=str))
+        return 0 if ok else 1
     ok, obs, exp, cls = eval_case(rep['input'])
     print(json.dumps({'ok': ok, 'class': cls, 'observed': obs, 'expected': exp}, default=str))
     return 0 if ok else 1
